@@ -227,6 +227,7 @@ func nilParamPanic(s *e1.Site) (fn *ssa.Function, idx int, ok bool) {
 
 // C03: decoding never crashes.
 func C03(p *load.Prog, r *oblig.Run) {
+	defer memoKeys(p, r, "R03.g")
 	r.Explanation = "May-panic site analysis (E1). Every explicit panic, single-result type assertion, bounds check the compiler could not prove, and reflect/regexp precondition in a repository function " +
 		"reachable (library-opaque, parameter-sensitive call graph) from Decoder.Decode / NewDocumentFromString / NewDocumentFromGEDCOMFile / the command's file loader, outside any recovering frame, is an obligation. " +
 		"Discharge: R-regex (submatch group index of a constant pattern after the no-match exit; trimmed group slice justified by the group's minimum length), R-lin (bounds implied by the dominating branch conditions, " +
